@@ -15,6 +15,7 @@ import (
 	"path/filepath"
 	"runtime"
 	"sort"
+	"strconv"
 	"strings"
 	"sync"
 	"time"
@@ -209,7 +210,15 @@ func run(raw json.RawMessage, prefix []string) (*vsched.Trace, []schedlib.V, str
 	if getEvery <= 0 {
 		getEvery = 4
 	}
+	// commit count at the begin of the latest read transaction of each goroutine
+	readBegin := map[uint64]int{}
 	proxy.Hook = func(pt faultx.Point) {
+		if !pt.Writable && pt.Kind == faultx.KBegin {
+			g := curGoid()
+			hmu.Lock()
+			readBegin[g] = commits
+			hmu.Unlock()
+		}
 		if !vsched.Controlled() {
 			return
 		}
@@ -261,9 +270,11 @@ func run(raw json.RawMessage, prefix []string) (*vsched.Trace, []schedlib.V, str
 				hmu.Lock()
 				from := commits
 				hmu.Unlock()
+				me := curGoid()
 				res, err := s.SearchPoints(models.SearchRequest{Query: query(kind), Select: []string{"*"}, Limit: 10})
 				hmu.Lock()
 				to := commits
+				snapAt, hasSnap := readBegin[me]
 				hmu.Unlock()
 				if err != nil {
 					msg := err.Error()
@@ -274,6 +285,11 @@ func run(raw json.RawMessage, prefix []string) (*vsched.Trace, []schedlib.V, str
 						// the known mechanism needs a commit between the search's
 						// snapshot and its cache access; without one it is something else
 						msg += ":no-commit-during-the-search"
+					} else if msg == "point does not exist" && hasSnap && to == snapAt {
+						// ... and that snapshot is the one of the read transaction the
+						// search failed in: no commit since *it* began means the ids
+						// came from an earlier transaction of the same search
+						msg += ":no-commit-since-the-failing-read-transaction-began"
 					}
 					fail("search-failed-spuriously:"+msg, "%s (%s) running concurrently failed: %v (commits finished before / after the search: %d / %d)", name, kind, err, from, to)
 					hmu.Lock()
@@ -441,6 +457,19 @@ func run(raw json.RawMessage, prefix []string) (*vsched.Trace, []schedlib.V, str
 	}
 	sort.Strings(outcome)
 	return tr, viols, strings.Join(outcome, ";")
+}
+
+// curGoid returns the id of the calling goroutine (parsed from its stack
+// header; used only at transaction begin, not on a hot path).
+func curGoid() uint64 {
+	var buf [64]byte
+	n := runtime.Stack(buf[:], false)
+	f := strings.Fields(string(buf[:n]))
+	if len(f) < 2 {
+		return 0
+	}
+	id, _ := strconv.ParseUint(f[1], 10, 64)
+	return id
 }
 
 func siteClass(site string) string {
